@@ -259,39 +259,49 @@ struct WalkCtx
     int stream; // -1 unknown
 };
 
-// Walks a packet; calls cb for each frame.  Verifies the C05 clauses.
+static bool
+soft_fail(const char* id, const char* fmt, ...)
+  __attribute__((format(printf, 2, 3)));
+
+// Walks a packet; calls cb for each frame.  Verifies the C05 clauses (when C05
+// is not the property being checked a broken chain just ends the walk: the
+// frames behind it are then missing for whoever consumes the packet).
 template<typename F>
 static void
 walk_packet(const uint8_t* beg, size_t nbytes, const char* where, F cb)
 {
     if (((uintptr_t)beg & 7) != 0)
-        oracle_fail("C05.unaligned_packet",
-                    "%s: packet does not start on an 8-byte boundary", where);
+        if (soft_fail("C05.unaligned_packet",
+                    "%s: packet does not start on an 8-byte boundary", where))
+            return;
     const uint8_t* p = beg;
     const uint8_t* end = beg + nbytes;
     int k = 0;
     while (p < end) {
         if ((size_t)(end - p) < sizeof(struct VideoFrame))
-            oracle_fail("C05.torn_frame",
+            if (soft_fail("C05.torn_frame",
                         "%s: %zu trailing bytes after frame %d are smaller "
                         "than a frame header",
-                        where, (size_t)(end - p), k);
+                        where, (size_t)(end - p), k))
+                return;
         const struct VideoFrame* f = (const struct VideoFrame*)p;
         size_t bof = f->bytes_of_frame;
         size_t img = (size_t)f->shape.dims.width * f->shape.dims.height *
                      f->shape.dims.channels * f->shape.dims.planes *
                      bytes_per_px((int)f->shape.type);
         if (bof != sizeof(struct VideoFrame) + align8(img))
-            oracle_fail("C05.bad_size_field",
+            if (soft_fail("C05.bad_size_field",
                         "%s: frame %d has bytes_of_frame=%zu but header (%zu) "
                         "+ image bytes (%zu) rounded up to 8 is %zu",
                         where, k, bof, sizeof(struct VideoFrame), img,
-                        sizeof(struct VideoFrame) + align8(img));
+                        sizeof(struct VideoFrame) + align8(img)))
+                return;
         if (bof > (size_t)(end - p))
-            oracle_fail("C05.torn_frame",
+            if (soft_fail("C05.torn_frame",
                         "%s: frame %d (%zu bytes) extends past the end of the "
                         "packet (%zu bytes left)",
-                        where, k, bof, (size_t)(end - p));
+                        where, k, bof, (size_t)(end - p)))
+                return;
         cb(f);
         p += bof;
         ++k;
